@@ -30,7 +30,7 @@ m = {
     "setup_cmd": "./check setup",
     "hooks": {
         "guard": "verif",
-        "enable": "go build -tags verif -overlay /verif/.work/overlay.json — package-internal accessors (/verif/harness/overlay/*.go.txt, `//go:build verif`) are ADDED to /repo packages at build time and files that read the clock are replaced by a copy of the CURRENT source with time.Now() redirected to a virtual clock; nothing is committed to /repo",
+        "enable": "go build -tags verif -overlay /verif/.work/overlay.json — package-internal accessors (/verif/harness/overlay/*.go.txt, `//go:build verif`) are ADDED to /repo packages at build time and the files listed in checklib/core.py (INSTRUMENT_CLOCK / INSTRUMENT_TIMERS / INSTRUMENT_SECTIONS) are replaced by a textually instrumented copy of the CURRENT source (time.Now/Until/Since -> verifNow, time.NewTimer -> verifNewTimer, lock/unlock sites announced through verifBefore/verifEnter/verifLeave; all no-ops unless the harness installs a hook); nothing is committed to /repo",
         "baseline_off_cmd": "cd /repo && GOFLAGS=-mod=mod go test -json -vet=off -count=1 -timeout 25m ./...",
         "source_commits": [],
         "add_only": True,
